@@ -36,7 +36,11 @@ impl Class {
 // a small pool on purpose: inputs of one world share type names, so that a cache or
 // registry keyed by name (history dependence) would collide
 const TYPE_NAMES: [&str; 5] = ["Entity", "EntityDto", "Record", "Node", "Item"];
-const COUNTERPARTS: [&str; 12] = ["EntityDto", "Entity", "Model", "Dto", "Other", "wire::Msg", "crate::api::Rec", "Pair<T>", "Wrapper<'a>", "Zed", "Alpha", "Beta"];
+const COUNTERPARTS: [&str; 20] = [
+    "EntityDto", "Entity", "Model", "Dto", "Other", "wire::Msg", "crate::api::Rec", "Pair<T>", "Wrapper<'a>", "Zed", "Alpha", "Beta",
+    // generic arguments of every kind: top-level and nested lifetimes, several of each, const args
+    "Pair<&'x str, &'y str>", "Both<'p, 'q>", "Gen<T, U>", "Nested<Vec<&'m T>, &'n [u8], Option<&'k str>>", "Mixed<'a, 'z, T, 3>", "Cow<'c, str>", "::ext::Abs<'e, 'f, 'g>", "Arr<[&'r u8; 2], fn(&'s i32) -> &'s i32>",
+];
 const FIELD_NAMES: [&str; 10] = ["id", "name", "value", "count", "flag", "data", "extra", "score", "left", "right"];
 const OTHER_NAMES: [&str; 8] = ["ident", "title", "amount", "total", "enabled", "payload", "misc", "points"];
 const FIELD_TYPES: [&str; 9] = ["i32", "String", "u8", "f32", "bool", "Vec<u8>", "Option<String>", "i64", "u16"];
@@ -627,10 +631,25 @@ pub fn inject_misuse(rng: &mut Rng, item: &mut Item, which: usize) -> &'static s
             "type:unrecognized"
         },
         14 => {
-            // duplicate trait instruction for the same counterpart
-            let instr = *rng.pick(&["map", "from", "into", "owned_into", "from_ref", "into_existing"]);
-            item.type_attrs.push(format!("#[{}({})]", instr, cp0));
-            item.type_attrs.push(format!("#[{}({})]", instr, cp0));
+            // duplicate trait instructions: 1..3 different counterparts, each named twice by the
+            // same instruction (same message, several candidate spans)
+            let instr = *rng.pick(&["map", "from", "into", "owned_into", "from_ref", "into_existing", "try_map"]);
+            let e = if is_fallible(instr) { ", String" } else { "" };
+            let n = rng.range(1, 3);
+            let mut cps: Vec<String> = vec![cp0.clone()];
+            for i in 1..n {
+                cps.push(format!("Dup{}", i));
+            }
+            let mut lines: Vec<String> = Vec::new();
+            for _ in 0..2 {
+                for c in &cps {
+                    lines.push(format!("#[{}({}{})]", instr, c, e));
+                }
+            }
+            if rng.chance(1, 2) {
+                rng.shuffle(&mut lines);
+            }
+            item.type_attrs.extend(lines);
             "type:duplicate-trait-instr"
         },
         15 => ty!("type:fallible-without-error", format!("{}(Unfall{})", rng.pick(&["try_map", "try_from", "try_into", "owned_try_into"]), rng.below(3))),
@@ -663,7 +682,7 @@ pub fn inject_misuse(rng: &mut Rng, item: &mut Item, which: usize) -> &'static s
             item.type_attrs.push(format!("#[where_clause({}| T: Copy)]", cp0));
             "type:duplicate-dedicated-where"
         },
-        25 => ty!("type:child_parents-duplicate-path", "child_parents(dup: A, dup: B)".to_string()),
+        25 => ty!("type:child_parents-duplicate-path", rng.pick(&["child_parents(dup: A, dup: B)", "child_parents(dup: A, other: O, dup: B, other: P)", "child_parents(a: A, b: B, c: C, c: C, a: A, b: B)"]).to_string()),
         26 => mem!("member:children", "children(a: A)".to_string()),
         27 => mem!("member:child_parents", "child_parents(a: A)".to_string()),
         28 => mem!("member:where_clause", "where_clause(T: Clone)".to_string()),
@@ -777,6 +796,13 @@ pub fn generate(rng: &mut Rng, corpus: &Corpus, class: Class) -> Item {
             for _ in 0..k {
                 let which = rng.below(N_MISUSES as u64) as usize;
                 tags.push(inject_misuse(rng, &mut base, which));
+                // the same rule broken again somewhere else: same message, another span
+                if rng.chance(1, 3) {
+                    let again = rng.range(1, 2);
+                    for _ in 0..again {
+                        inject_misuse(rng, &mut base, which);
+                    }
+                }
             }
             base.origin = format!("W1[{}]<-{}", tags.join(","), base.origin);
             base
